@@ -362,12 +362,32 @@ func concludeSim(prop, tier string, seed int64, ts tierSize, merged *batchOut, t
 		vw[v.World] = true
 	}
 	fmt.Printf("%s %s seed=%d: worlds=%d nontrivial-distinct=%d violations=%d (in %d worlds) known=%d other=%v inconclusive=%d wall=%.1fs\n", prop, tier, seed, merged.Worlds, len(distinct), len(mine), len(vw), len(known), other, merged.NInconcl, wall)
-	seen := map[string]bool{}
-	for _, v := range known {
-		if !seen[v.Known] {
-			seen[v.Known] = true
-			fmt.Printf("KNOWN-FINDING: property=%s %s (e.g. world %d: %s) replay=%s\n", prop, v.Known, v.World, firstLine(v.Msg), v.Replay)
+	// one line per finding that is listed (open) for this property, whether or
+	// not this run met it again; nothing is ever added to the list at run time
+	for _, kf := range openFindings {
+		listed := false
+		for _, p := range kf.Properties {
+			if p == prop {
+				listed = true
+			}
 		}
+		if !listed {
+			continue
+		}
+		n, eg := 0, ""
+		worlds := map[int]bool{}
+		for _, v := range known {
+			if strings.HasPrefix(v.Known, kf.ID+":") {
+				if !worlds[v.World] {
+					worlds[v.World] = true
+					n++
+				}
+				if eg == "" {
+					eg = fmt.Sprintf(" e.g. world %d replay=%s", v.World, v.Replay)
+				}
+			}
+		}
+		fmt.Printf("KNOWN-FINDING: property=%s %s %s [met again in %d world(s) of this run%s]\n", prop, kf.ID, kf.Summary, n, eg)
 	}
 	for i, v := range mine {
 		if i >= 5 {
